@@ -764,6 +764,45 @@ def honest_shape(transport, cfg):  # noqa: F811 - memoised
     return _shape_cache[k]
 
 
+# ------------------------------------------------------------------ BLE: how a pairing reply is cut into GATT payloads
+BLE_DELIVERIES = ["single", "fragmented", "siblings-first", "siblings-last"]
+
+
+class BlePieces:
+    """HAP-BLE delivers a long pairing reply in pieces: FragmentData items acknowledged one by one, then FragmentLast;
+    items such as State / Error may travel NEXT TO a fragment item of any piece.  `mode`:
+      single          the whole reply in one payload
+      fragmented      every item inside the fragment stream (two FragmentData pieces + FragmentLast)
+      siblings-first  State / Error beside the FIRST (non-final) FragmentData piece, the rest inside the stream
+      siblings-last   State / Error beside the FragmentLast piece
+    All modes denote the same reply (used only when the reply's item types are distinct)."""
+
+    def __init__(self, respond, mode="single"):
+        self.respond, self.mode, self.queue, self.log = respond, mode, [], []
+
+    def pieces(self, reply: bytes):
+        items = ref_decode(reply)
+        if self.mode == "single" or not items or len({t for t, _ in items}) != len(items) \
+                or any(t in (12, 13) for t, _ in items):
+            return [reply]
+        sib = [(t, v) for t, v in items if t in (T_STATE, T_ERROR)] if self.mode != "fragmented" else []
+        rest = ref_encode([(t, v) for t, v in items if (t, v) not in sib])
+        a, b = rest[:len(rest) // 3], rest[len(rest) // 3: 2 * len(rest) // 3]
+        c = rest[len(a) + len(b):]
+        first = ([] if self.mode != "siblings-first" else sib) + [(12, a)]
+        last = [(13, c)] + ([] if self.mode != "siblings-last" else sib)
+        return [ref_encode(first), ref_encode([(12, b)]), ref_encode(last)]
+
+    def write(self, body: bytes) -> bytes:
+        if self.queue and bytes(body) == b"\x0c\x00":        # acknowledgement of a FragmentData piece
+            out = self.queue.pop(0)
+        else:
+            self.queue = self.pieces(self.respond(bytes(body)))
+            out = self.queue.pop(0)
+        self.log.append(out.hex())
+        return out
+
+
 # ------------------------------------------------------------------ in-memory TCP peer for the IP transport
 HTTP_RULES = ["always-200", "400-on-error", "405-on-error", "470-on-error"]
 
@@ -940,13 +979,14 @@ async def glue_coap(s: Scn, peer):
     return "done", ok, None
 
 
-async def glue_ble(s: Scn, peer):
+async def glue_ble(s: Scn, peer, delivery="single"):
     import aiohomekit.controller.ble.client as bc
     import aiohomekit.controller.ble.pairing as bp
     rs_ctrl = peer.controller_args()
+    link = BlePieces(peer.respond, delivery)
 
     async def fake_char_write(client, ek, dk, handle, iid, body):
-        return peer.respond(bytes(body))
+        return link.write(bytes(body))
 
     class FakeClient:
         address = "00:00"
@@ -1161,8 +1201,10 @@ async def ble_sequence(mode):
     import aiohomekit.controller.ble.pairing as bp
     hub = dict(peer=None)
 
+    link = BlePieces(lambda b: hub["peer"].respond(b), "siblings-first" if mode == "rejected-in-pieces-between" else "fragmented")
+
     async def fake_char_write(client, ek, dk, handle, iid, body):
-        return hub["peer"].respond(bytes(body))
+        return link.write(bytes(body))
 
     class FakeClient:
         address = "00:00"
@@ -1187,6 +1229,8 @@ async def ble_sequence(mode):
         plan = [("honest", {}, False)]
         if mode == "failed-verify-between":
             plan.append(("wrong-ltsk", dict(ltsk=OTHER_LTSK), False))
+        if mode == "rejected-in-pieces-between":
+            plan.append(("accessory-rejects-m3", dict(ctrl_ltsk=OTHER_LTSK), False))
         plan.append(("honest", {}, mode != "accessory-forgot"))
         plan.append(("honest", {}, True))
         for k, (label, accd, remembers) in enumerate(plan):
@@ -1450,8 +1494,10 @@ class LiveBle(LiveBase):
         import aiohomekit.controller.ble.pairing as bp
         hub = self.hub
 
+        self.link = BlePieces(lambda b: hub["peer"].respond(b), "single")
+
         async def fake_char_write(client, ek, dk, handle, iid, body):
-            return hub["peer"].respond(bytes(body))
+            return self.link.write(bytes(body))
 
         class FakeClient:
             address = "00:00"
@@ -1475,8 +1521,9 @@ class LiveBle(LiveBase):
     async def __aexit__(self, *a):
         self.bc.char_write = self.orig
 
-    async def verify(self, peer):
+    async def verify(self, peer, delivery="single"):
         self.hub["peer"] = peer
+        self.link.mode, self.link.queue = delivery, []
         try:
             await self.p._async_pair_verify()
         except Exception as e:  # noqa: BLE001
@@ -1611,7 +1658,11 @@ async def run_history(tr, kinds, rnd):
                         return [(T_STATE, lit(b"\x02")), (T_METHOD, lit(b"\x06")), (T_SID, ns), (T_ENC, tag)]
                     m2ops = [top(forged, "forged-resume")]
                 peer = Peer(Scn("history", tr, 0, acc=accd, m2=m2ops, m4=m4ops), U, 100 + i, live_session=live_s)
-                if tr == "ip":
+                if tr == "ble":
+                    dl = rnd.choice(BLE_DELIVERIES)
+                    exc = await lv.verify(peer, dl)
+                    entry.update(gatt_delivery=dl, gatt_payloads=lv.link.log[-6:])
+                elif tr == "ip":
                     rule = rnd.choice(HTTP_RULES)
                     exc = await lv.verify(peer, rule)
                     entry.update(http_rule=rule, http_status_of_replies=list(lv.conn.transport.http_log) if lv.conn.transport else None)
@@ -1675,7 +1726,7 @@ SEQUENCE_MODES = dict(
     coap=["network-error", "timeout", "not-found", "garbage-response", "reconnect-soon", "verify-while-connected",
           "failed-verify-between"],
     ip=["reconnect", "failed-verify-between", "rejected-with-4xx-between"],
-    ble=["resume", "accessory-forgot", "failed-verify-between"])
+    ble=["resume", "accessory-forgot", "failed-verify-between", "rejected-in-pieces-between"])
 
 
 def sequence_pass():
@@ -1713,7 +1764,10 @@ def glue_pass(scns, recs):
                 if any(t in (12, 13) for t, _ in d2 + (d4 or [])):
                     out.append(None)          # fragment reassembly path: C15's ble_reassembly, excluded here
                     continue
-                out.append(await glue_ble(s, Peer(s)))
+                res = []
+                for dl in BLE_DELIVERIES:     # how the reply is cut into GATT payloads is a scenario dimension
+                    res.append(await glue_ble(s, Peer(s), dl) + ("gatt-" + dl,))
+                out.append(res)
             elif s.resume:
                 out.append(None)              # IP / CoAP glue never offers a resume
             elif s.transport == "ip":
@@ -2142,13 +2196,16 @@ def run(ctx):
             impl_done = " result=done" in rec["impl"]
             cov.case(f"glue|{s.ident()}|{rule}", True, transport="glue-" + s.transport, glue_outcome=outcome,
                      **({"http_rule": rule} if rule else {}))
-            extra = dict(glue=outcome, http_status_rule=rule,
+            extra = dict(glue=outcome, delivery_rule=rule,
                          note=("IP: the reply bytes m2/m4 are delivered as HTTP responses; with rule N-on-error a reply that "
-                               "carries an Error item has status N (4xx), all others 200") if rule else None)
+                               "carries an Error item has status N (4xx), all others 200.  BLE gatt-*: m2/m4 are cut into "
+                               "FragmentData / FragmentLast payloads; siblings-first = State/Error items beside the first, "
+                               "non-final piece, siblings-last = beside FragmentLast") if rule else None)
             if (outcome == "done") != impl_done:
                 found = outcome == "done" and not rec["just"]
                 viol.append(violation(("accepted-unauthentic:glue:" + str(rec["why_not"]) if found else "glue-mismatch:" + s.family)
-                                      + ":" + s.transport + (":http-" + rule if rule and rule != "always-200" else ""),
+                                      + ":" + s.transport + (":" + ("http-" if s.transport == "ip" else "") + rule
+                                                             if rule and rule not in ("always-200", "gatt-single") else ""),
                                       f"transport glue outcome {outcome} ({exc}) differs from the generator-level outcome "
                                       f"'{rec['impl']}' on {s.ident()}" + (f" [HTTP status rule {rule}]" if rule else "")
                                       + ("; the connection reports a secure session although the delivered replies fail the "
